@@ -17,3 +17,13 @@ def emoji_of(c):
 
 def md_symbol_of(c):
     return "❌" if c == 3 else "⚠"
+
+
+def nl_before(indices, k, o):
+    # exactly k of the (increasing) newline offsets lie before offset o
+    return 0 <= k <= len(indices) and (k == 0 or indices[k - 1] < o) and (k == len(indices) or indices[k] >= o)
+
+
+def col_of(indices, k, o):
+    # 1-based column of offset o on the line that starts after the k-th newline
+    return o - (0 if k == 0 else indices[k - 1] + 1) + 1
